@@ -94,7 +94,9 @@ CHECKS = {
             "maximum are neither delivered nor recorded, two connections' tables never influence each other (any "
             "interleaving = the two separate runs), client-side routing depends only on the resolved topic. Tied to "
             "real v5 servers/clients (v5::Router and ClientRouter resources log their own index) by alias sequences and "
-            "scan P9. Partial: the router caches are not modelled, only observed.", "section 5, C17"),
+            "scan P9, including publishes that sit behind the peer's DISCONNECT in the same read under "
+            "handle_qos_after_disconnect (dropped publishes still re-bind). Partial: the router caches are not modelled, "
+            "only observed.", "section 5, C17"),
     "C04": ("Coq theorem over all well-formed histories and every wrapping base value: what the response queue has "
             "written is exactly the responses of the longest completed prefix of requests in arrival order (none "
             "lost, none duplicated, none out of order); after a handler error still a prefix. The model of "
@@ -144,14 +146,17 @@ CHECKS = {
 EXTRA = {
     "C04": " Connection level: real v3/v5 servers, the responses seen by the peer are in request order (scan P16), also "
            "when the requests arrive in one read (burst engines) and while the outbound side is busy (sink engines, "
-           "inbound PUBLISH, clause 41).",
+           "inbound PUBLISH, clause 41); the client role answers the broker's requests in order too (cli3/cli5 parts, "
+           "P16 restricted to cases with one request per packet id).",
     "C05": " The origin of the limit (min of configured/overridden max_send and the peer's Receive Maximum) is checked on "
-           "real handshakes (engine hs, credit probes).",
+           "real handshakes (engine hs, credit probes); a client's window after CONNACK is the announced limit "
+           "(clause 53).",
     "C06": " A PUBLISH that cannot be encoded reserves nothing (C06_failed_publish_reserves_nothing, task kind 8).",
     "C08": " At sink level (Props/C08sink.v): in every reachable state the sink's and the codec's view of the owed "
            "payload agree, no packet is written while a payload is owed, a send that fails writes nothing and "
            "registers nothing, chunks stay within the declared size.",
-    "C14": " An id stays owned until PUBCOMP (clause 63 on the wire log). Every reachable receipt has its channel under the executable 'PUBCOMP only after our PUBREL' predicate "
+    "C14": " An id stays owned until PUBCOMP (clause 63 on the wire log); a PUBREL leaves only when a receipt is "
+           "released or dropped (clause 144). Every reachable receipt has its channel under the executable 'PUBCOMP only after our PUBREL' predicate "
            "(C14_receipt_has_channel), so the release theorems need no extra hypothesis.",
     "C07": " Payload readers at teardown: engines plstop3/plstop5 with Model/PlStop.v and Props/C07pl.v (a reader "
            "never finishes Ok with fewer bytes than announced; after the end it fails within buffered+1 polls)."
@@ -164,7 +169,8 @@ EXTRA = {
     "C12": " Whole servers when several frames arrive in ONE read: engines inb3b/inb5b (Model/InboundBurst.v, "
            "Props/C12burst.v: the same server model plus a held write), scans P19 (v3: never more handlers at once than "
            "max_receive), P20 (everything handled once the handlers finish). The limiter's view of decoded items (what wf_stream assumes) is tied to the codec by engines sized3/sized5; "
-           "the client role of the receive maximum is covered by the cli5 cases.",
+           "the client role of the receive maximum is covered by the cli5 cases; the Receive Maximum in force is the one "
+           "announced in CONNACK, handshake overrides included (handshake engine bursts, clause 11).",
     "C13": " The ControlService wrapper (engines ctlwrap3/ctlwrap5, Model/CtlWrap.v, Props/C13ctl.v): the flag is the "
            "last notification ISSUED, whatever the order in which the application's control calls complete."
            " Where the flag comes from: io.rs announces back-pressure off once the buffer is flushed and the service is "
@@ -174,15 +180,18 @@ EXTRA = {
     "C15": " Busy endpoints: the DISCONNECT the sink layer writes for a rule-breaking acknowledgement carries 0x83 "
            "(wire log of Model/Sink.v carries the reason, clause 151); client role covered by scan P12. Limits set up "
            "by the handshake: a PUBLISH over the inbound packet size / maximum QoS is refused with 0x95 / 0x9B "
-           "(handshake engine, clause 10).",
+           "(handshake engine, clause 10). The zero-session-expiry flag of a v5 server is part of the model (configuration "
+           "field 5): a DISCONNECT changing the expiry of a non-zero-expiry session is accepted silently "
+           "(C15_peer_disconnect_with_expiry_accepted, scan P5).",
     "C16": " Busy endpoints (outstanding sends x every acknowledgement type, every (request kind, acknowledgement "
-           "kind) pair with the same id), packets arriving in one read (burst engines) and the limiter's view of streamed "
+           "kind) pair with the same id), packets arriving in one read (burst engines), the in-flight limiter's wake-ups "
+           "(limiter engine, clauses 4 and 6: a reader that is never woken again is a hang) and the limiter's view of streamed "
            "publishes (a mis-flagged PUBLISH stalls the connection) are part of the run.",
     "C18": " Where the validator is used: SUBSCRIBE / UNSUBSCRIBE with mixed-validity filter lists on real servers "
            "(scan P15).",
     "C19": " Client role: the window after CONNACK equals the announced Receive Maximum (sink engines, role 1).",
     "C20": " Props/C20cli.v: the period the client's loop runs with is the Server Keep Alive of CONNACK when there is "
-           "one (also when the client asked for none), else its own. Client keep-alive loop with an exhausted send window and keep-alive values at the u16 boundary of the "
+           "one (also when the client asked for none), else its own. Client keep-alive loop (v3 and v5) with an exhausted send window and keep-alive values at the u16 boundary of the "
            "1.5x factor are among the real-time scenarios.",
 }
 
